@@ -263,6 +263,7 @@ type tmfModel struct {
 
 func run3MF(src *choice.Source, st *Stats) (fs []Finding) {
 	defer recoverTo("3mf", &fs)
+	st.MapDep = "Write3MF serialises through a Mesh (Go map order) and deflate, so the file length varies between runs"
 	tris := genMesh(src, meshgen.AllowPlain|1<<meshgen.FlNineDigits|1<<meshgen.FlSignedZero, st)
 	w := simio.NewWriter(simio.WriteFaults{})
 	if err := model3d.Write3MF(w, fileformats.ThreeMFUnitMillimeter, tris); err != nil {
